@@ -1,5 +1,8 @@
 /* wrapper TU (vm-err checks C04/C05/C06): the real src/error_context.c of the current tree + read access to its statics.
  * error_handler() is additionally routed through a recorder (every error the driver raises passes through it). */
+#ifdef HAVE_CONFIG_H
+#include <config.h>
+#endif
 #include "src/std.h"
 #include "src/error_context.h"
 #include "src/simulate.h"
